@@ -50,6 +50,9 @@ VList(s) == [k |-> "list", l |-> s]          \* list of ints
 VDict(d) == [k |-> "dict", d |-> d]          \* Dict[str, int]: name -> int
 VTup(i, s) == [k |-> "tup", ti |-> i, ts |-> s]   \* Tuple[int, str]
 VEnum(n) == [k |-> "enum", e |-> n]          \* member of the generated Enum, by name
+VSpec(c, x) == [k |-> "spec", c |-> c, x |-> x]    \* round 4: {"class_path": "<module>.<c>", "init_args": {"x": x}} for a class-typed parameter
+VObj(c, x)  == [k |-> "obj",  c |-> c, x |-> x]    \* the instance of class c (Base or its subclass Sub) built with x
+Inst(v)  == IF v.k = "spec" THEN VObj(v.c, v.x) ELSE v      \* ArgumentParser.instantiate_classes
 VNull    == [k |-> "null"]                   \* Python None
 NoVal    == [k |-> "none"]                   \* absence (inspect._empty / key not in cfg); not a Python value
 Bad      == [k |-> "bad"]                    \* conversion failed
@@ -70,6 +73,7 @@ Text(v) == CASE v.k = "str"  -> v.s
              [] v.k = "int"  -> ToString(v.i)
              [] v.k = "bool" -> (IF v.b THEN "true" ELSE "false")
              [] v.k = "null" -> "null"
+             [] v.k = "spec" -> "<spec " \o v.c \o ">"       \* (never the text of a str: specs are only written for class-typed parameters)
              [] OTHER        -> "?"
 
 \* the strs of digits of the vocabulary and the ints they are the text of
@@ -88,6 +92,13 @@ ConvBase(t, v, src) ==
     [] t = "enum"    -> IF v.k = "str" /\ v.s \in EnumMembers THEN VEnum(v.s) ELSE Bad
     [] t = "str"     -> IF src = "argv" THEN (IF v.k \in {"str", "int", "bool", "null", "list", "dict", "tup"} THEN VStr(Text(v)) ELSE Bad)
                         ELSE (IF v.k = "str" THEN v ELSE Bad)
+    \* round 4: parameters WITHOUT a type hint under auto_cli(fail_untyped=False), _signatures.py:348-351,362-363: the hint becomes
+    \* Any -- Union[type(default), Any] when there is a default --, every value is kept as it was loaded (type "opt_any": also
+    \* None; without default the parameter is NOT required and defaults to None, like an Optional one)
+    [] t = "any"     -> IF v.k \in {"str", "int", "bool", "list", "dict"} THEN v ELSE Bad
+    \* round 4: a parameter whose hint is the class Base, given as a class_path / init_args spec of Base or of its subclass Sub
+    \* (parsing keeps the checked spec; auto_cli instantiates it before the call, _cli.py:99,115)
+    [] t = "obj"     -> IF v.k = "spec" /\ v.c \in {"Base", "Sub"} THEN v ELSE Bad
     [] OTHER         -> Bad
 Conv(t, v, src) == IF IsOpt(t) THEN (IF v.k = "null" THEN VNull ELSE ConvBase(Unopt(t), v, src)) ELSE ConvBase(t, v, src)
 
@@ -135,6 +146,38 @@ CallName(cs, lvl) == CASE LvlKind(cs, lvl) = "fn"     -> LeafOf(cs, lvl).name
                        [] LvlKind(cs, lvl) = "cls"    -> LeafOf(cs, lvl).name \o ".__init__"
                        [] LvlKind(cs, lvl) = "method" -> LeafOf(cs, FrontSeq(lvl)).name \o "." \o lvl[Len(lvl)]
                        [] OTHER                       -> "?"
+
+(***************************************************************************)
+(* Round 4: optional attributes of a case / callable (absent = the old     *)
+(* universe).  A callable x (function leaf, class leaf = its __init__,     *)
+(* method record) may carry                                                *)
+(*   rz  "" | "boom" | "typeerr" | "keyerr": after logging its arguments   *)
+(*       the callable raises an exception of that class                    *)
+(*   rk  "tok" | "none" | "zero" | "empty" | "false": what it returns      *)
+(*       (a token naming it, None, 0, [], False)                           *)
+(*   co  TRUE: it is a coroutine function (async def)                      *)
+(* A case may carry                                                        *)
+(*   sd  auto_cli(set_defaults=...): sequence of [lvl, n, v] (dotted key)  *)
+(*   envon / env   default_env=True / the environment (see below)          *)
+(***************************************************************************)
+Rz(x) == IF "rz" \in DOMAIN x THEN x.rz ELSE ""
+Rk(x) == IF "rk" \in DOMAIN x THEN x.rk ELSE "tok"
+CallableOf(cs, lvl) == IF LvlKind(cs, lvl) = "method" THEN MethodOf(cs, lvl) ELSE LeafOf(cs, lvl)
+RetTok(cs, lvl) == LET x == CallableOf(cs, lvl) IN
+                   CASE Rk(x) = "none" -> "None" [] Rk(x) = "zero" -> "int:0" [] Rk(x) = "empty" -> "list:[]"
+                     [] Rk(x) = "false" -> "bool:False" [] OTHER -> "ret:" \o CallName(cs, lvl)
+ExcTok(cs, lvl) == "exc:" \o Rz(CallableOf(cs, lvl)) \o ":" \o CallName(cs, lvl)
+\* the environment: default_env=True passed through auto_cli's parser kwargs (envon) and the variables that are set:
+\*   [k |-> "evar", lvl, n, v]   <PREFIX>_<LVL..>__<N> = text of v      (parameter n of level lvl)
+\*   [k |-> "esel", lvl, v]      <PREFIX>_<LVL..>__SUBCOMMAND = v.s     (selects a sub-command of level lvl)
+\*   [k |-> "ecfg", lvl, m]      <PREFIX>_CONFIG = json of m            (lvl = << >>; m like the map of a --config token)
+CsEnvOn(c) == IF "envon" \in DOMAIN c THEN c.envon ELSE FALSE
+CsEnv(c) == IF "env" \in DOMAIN c THEN c.env ELSE << >>
+EnvIdx(c, kind, lvl) == {i \in 1..Len(CsEnv(c)) : CsEnv(c)[i].k = kind /\ CsEnv(c)[i].lvl = lvl}
+CsSd(c) == IF "sd" \in DOMAIN c THEN c.sd ELSE << >>
+SdIdx(c, lvl, n) == {i \in 1..Len(CsSd(c)) : CsSd(c)[i].lvl = lvl /\ CsSd(c)[i].n = n}
+HasSd(c, lvl, n) == SdIdx(c, lvl, n) # {}
+SdVal(c, lvl, n) == CsSd(c)[CHOOSE i \in SdIdx(c, lvl, n) : \A j \in SdIdx(c, lvl, n) : j <= i].v
 
 (***************************************************************************)
 (* Python's own call semantics: what the callee sees when called with the  *)
@@ -207,45 +250,77 @@ RefScan(cs, toks, lvl, np, acc) ==
             [] tk.k = "cfg" ->
                  IF RefHasConfig(cs, lvl) THEN RefScan(cs, Tail(toks), lvl, np, acc \o RefCfgAsg(cs, lvl, tk.m))
                  ELSE Append(acc, Asg(lvl, "config", Bad, "bad"))
-RefAsgs(cs) == RefScan(cs, cs.argv, << >>, 0, << >>)
+\* The environment (when default_env is on) reads as assignments of the lowest priority, before the command line: the
+\* config variable first, then the variables of the parameters.  Variables that name nothing the component offers are
+\* ignored (the environment is ambient), a <..>SUBCOMMAND variable is a selection that any later selection overrides.
+RECURSIVE RefEnvAsgsI(_, _, _)
+RefEnvAsgsI(cs, i, pass) ==
+  IF i > Len(CsEnv(cs)) THEN << >>
+  ELSE LET e == CsEnv(cs)[i]
+           one == IF LvlKind(cs, e.lvl) = "none" THEN << >>
+                  ELSE IF pass = 1 /\ e.k = "ecfg" THEN (IF RefHasConfig(cs, e.lvl) THEN RefCfgAsg(cs, e.lvl, e.m) ELSE << >>)
+                  ELSE IF pass = 2 /\ e.k = "esel" THEN (IF e.v.k = "str" /\ e.v.s \in LvlSubs(cs, e.lvl) THEN <<Asg(e.lvl, "subcommand", e.v, "sele")>> ELSE << >>)
+                  ELSE IF pass = 2 /\ e.k = "evar" THEN (IF RefIsSetting(cs, e.lvl, e.n) THEN <<Asg(e.lvl, e.n, e.v, "env")>> ELSE << >>)
+                  ELSE << >>
+       IN one \o RefEnvAsgsI(cs, i + 1, pass)
+RefEnvAsgs(cs) == IF CsEnvOn(cs) THEN RefEnvAsgsI(cs, 1, 1) \o RefEnvAsgsI(cs, 1, 2) ELSE << >>
+RefAsgs(cs) == RefScan(cs, cs.argv, << >>, 0, RefEnvAsgs(cs))
+\* Which of the two wins when the config variable holds a SECTION for a sub-command and a variable of that sub-command gives
+\* the same parameter is not pinned (at the root level the parameter's variable wins, as documented for --config vs option
+\* order): second reading = the sections of the config variable after the variables.
+RefHasEcfg(cs) == CsEnvOn(cs) /\ \E i \in 1..Len(CsEnv(cs)) : CsEnv(cs)[i].k = "ecfg"
+RefEnvAsgs2(cs) == LET ec == RefEnvAsgsI(cs, 1, 1) IN
+                   SelectSeq(ec, LAMBDA a : a.lvl = << >>) \o RefEnvAsgsI(cs, 1, 2) \o SelectSeq(ec, LAMBDA a : a.lvl # << >>)
+RefAsgs2(cs) == RefScan(cs, cs.argv, << >>, 0, RefEnvAsgs2(cs))
 
 \* the selected chain of levels: an explicit sub-command word, else the sub-command that has settings
 RefHasSettings(as, lvl) == \E i \in 1..Len(as) : as[i].src \in {"cfg", "selc"} /\ IsPrefixSeq(lvl, as[i].lvl)
 RECURSIVE RefSelect(_, _, _)
 RefSelect(cs, as, lvl) ==       \* the set of possible selected levels below lvl (a level that still has sub-commands = dead end)
   IF LvlSubs(cs, lvl) = {} THEN {lvl}
-  ELSE LET sels == {j \in 1..Len(as) : as[j].src \in {"sel", "selc"} /\ as[j].lvl = lvl}
+  ELSE LET sels == {j \in 1..Len(as) : as[j].src \in {"sel", "selc", "sele"} /\ as[j].lvl = lvl}
            expl == {as[i].v.s : i \in {j \in sels : \A j2 \in sels : j2 <= j}}          \* the last selection wins
            impl == {s \in LvlSubs(cs, lvl) : RefHasSettings(as, lvl \o <<s>>)}
            cand == IF expl # {} THEN expl ELSE impl
        IN IF cand = {} THEN {lvl}                  \* no sub-command selected below lvl: this chain ends in a rejection
           ELSE UNION {RefSelect(cs, as, lvl \o <<s>>) : s \in cand}
 
-RefGiven(as, lvl, n) == {i \in 1..Len(as) : as[i].lvl = lvl /\ as[i].n = n /\ as[i].src \in {"argv", "cfg"}}
+RefGiven(as, lvl, n) == {i \in 1..Len(as) : as[i].lvl = lvl /\ as[i].n = n /\ as[i].src \in {"argv", "cfg", "env"}}
+SrcConv(src) == IF src = "env" THEN "argv" ELSE src          \* a value from the environment is text, like one on the command line
 RefLast(as, lvl, n)  == as[CHOOSE i \in RefGiven(as, lvl, n) : \A j \in RefGiven(as, lvl, n) : j <= i]
 \* every parameter is bound to the converted last given value, or else to the signature default
 RefBinding(cs, as, lvl, p) ==
-  IF RefGiven(as, lvl, p.n) # {} THEN Conv(RefType(p), RefLast(as, lvl, p.n).v, RefLast(as, lvl, p.n).src)
+  IF RefGiven(as, lvl, p.n) # {} THEN Inst(Conv(RefType(p), RefLast(as, lvl, p.n).v, SrcConv(RefLast(as, lvl, p.n).src)))    \* (a class spec: the instance)
+  ELSE IF HasSd(cs, lvl, p.n) THEN SdVal(cs, lvl, p.n)          \* set_defaults "override the component's defaults"
   ELSE RefDefault(p)
 RefKw(cs, as, lvl) == LET ps == LvlParams(cs, lvl) IN [n \in ParamNames(ps) |-> RefBinding(cs, as, lvl, ParamOf(ps, n))]
 \* levels whose parameters take part in the call of the leaf level sel (a method call also needs its class)
 RefCallLevels(cs, sel) == IF LvlKind(cs, sel) = "method" THEN <<FrontSeq(sel), sel>> ELSE <<sel>>
+RefEnvIllTyped(cs, a) == Conv(RefType(ParamOf(LvlParams(cs, a.lvl), a.n)), a.v, "argv") = Bad
 RefValid(cs, as, sel) ==
   /\ \A i \in 1..Len(as) : as[i].src # "bad"
   /\ \A i \in 1..Len(as) : as[i].src \in {"argv", "cfg"} => Conv(RefType(ParamOf(LvlParams(cs, as[i].lvl), as[i].n)), as[i].v, as[i].src) # Bad
+  /\ \A i \in 1..Len(as) : (as[i].src = "env" /\ IsPrefixSeq(as[i].lvl, sel)) => ~RefEnvIllTyped(cs, as[i])      \* the environment of the levels that run
   /\ LvlKind(cs, sel) \in {"fn", "method"}
   /\ \A k \in 1..Len(RefCallLevels(cs, sel)) : LET lvl == RefCallLevels(cs, sel)[k] ps == LvlParams(cs, lvl) IN
-        \A j \in 1..Len(ps) : RefRequired(ps[j]) => RefGiven(as, lvl, ps[j].n) # {}
-\* the outcomes the property allows (a set: which of several configured sub-commands runs is not pinned)
+        \A j \in 1..Len(ps) : RefRequired(ps[j]) => (RefGiven(as, lvl, ps[j].n) # {} \/ HasSd(cs, lvl, ps[j].n))
+\* the outcomes the property allows (a set: which of several configured sub-commands runs is not pinned; whether an
+\* ill-typed environment variable of a sub-command that does not run is reported is not pinned either)
 RefOutcomeFor(cs, as, sel) ==
   IF ~RefValid(cs, as, sel) THEN Reject
   ELSE LET lv == RefCallLevels(cs, sel)
-       IN Outcome("ok", [k \in 1..Len(lv) |-> Call(CallName(cs, lv[k]), RefKw(cs, as, lv[k]))], "ret:" \o CallName(cs, sel))
-RefOutcomes(cs) == LET as == RefAsgs(cs)
-                       sels == RefSelect(cs, as, << >>)
+           cl == [k \in 1..Len(lv) |-> Call(CallName(cs, lv[k]), RefKw(cs, as, lv[k]))]
+       IN \* an exception raised by the component propagates unchanged; nothing is called after it
+          IF Len(lv) = 2 /\ Rz(LeafOf(cs, lv[1])) # "" THEN Outcome("raise", <<cl[1]>>, ExcTok(cs, lv[1]))
+          ELSE IF Rz(CallableOf(cs, sel)) # "" THEN Outcome("raise", cl, ExcTok(cs, sel))
+          ELSE Outcome("ok", cl, RetTok(cs, sel))
+RefOutcomesAs(cs, as) ==
+                   LET sels == RefSelect(cs, as, << >>)
                    IN IF \E i \in 1..Len(as) : as[i].src = "bad" THEN {Reject}
                       ELSE IF sels = {} THEN {Reject}
                       ELSE {RefOutcomeFor(cs, as, s) : s \in sels}
+                           \cup (IF \E i \in 1..Len(as) : as[i].src = "env" /\ RefEnvIllTyped(cs, as[i]) THEN {Reject} ELSE {})
+RefOutcomes(cs) == IF RefHasEcfg(cs) THEN RefOutcomesAs(cs, RefAsgs(cs)) \cup RefOutcomesAs(cs, RefAsgs2(cs)) ELSE RefOutcomesAs(cs, RefAsgs(cs))
 
 (***************************************************************************)
 (* Alg layer: shape of the parser derived from the signatures              *)
@@ -261,7 +336,9 @@ AlgType(p)     == IF ~AlgRequired(p) /\ AlgDefault(p) = VNull /\ ~IsOpt(p.t) THE
 Action(p, aspos) == [dest |-> p.n, pos |-> AlgRequired(p) /\ aspos,                         \* :379 positional iff required and as_positional
                      req |-> AlgRequired(p), dflt |-> AlgDefault(p), t |-> AlgType(p)]      \* :371,375
 Actions(cs, lvl) == LET ps == SelectSeq(LvlParams(cs, lvl), LAMBDA p : ~AlgSkipped(p))      \* :307-318 in signature order
-                    IN [i \in 1..Len(ps) |-> Action(ps[i], cs.aspos)]
+                    IN [i \in 1..Len(ps) |-> IF HasSd(cs, lvl, ps[i].n)                                \* _core.py:213 set_defaults: action.default = default
+                                             THEN [Action(ps[i], cs.aspos) EXCEPT !.dflt = SdVal(cs, lvl, ps[i].n)]   \*   (required stays as it was)
+                                             ELSE Action(ps[i], cs.aspos)]
 Positionals(cs, lvl) == SelectSeq(Actions(cs, lvl), LAMBDA a : a.pos)
 HasAction(cs, lvl, n) == \E i \in 1..Len(Actions(cs, lvl)) : Actions(cs, lvl)[i].dest = n
 ActionOf(cs, lvl, n) == Actions(cs, lvl)[CHOOSE i \in 1..Len(Actions(cs, lvl)) : Actions(cs, lvl)[i].dest = n]
@@ -286,6 +363,7 @@ IsListType(t) == t \in {"listint", "opt_listint"}
 OptStrings(cs, l) == {"--help", "--config", "--print_config", "--print_shtab"}
                      \cup {"--" \o Actions(cs, l)[i].dest : i \in {j \in 1..Len(Actions(cs, l)) : ~Actions(cs, l)[j].pos}}
                      \cup {"--" \o Actions(cs, l)[i].dest \o "+" : i \in {j \in 1..Len(Actions(cs, l)) : ~Actions(cs, l)[j].pos /\ IsListType(Actions(cs, l)[j].t)}}
+                     \cup {"--" \o Actions(cs, l)[i].dest \o ".help" : i \in {j \in 1..Len(Actions(cs, l)) : ~Actions(cs, l)[j].pos /\ Actions(cs, l)[j].t \in {"obj", "opt_obj"}}}   \* class-typed: --name.help (_typehints.py, subclass help action)
 IsProperPrefix(p, o) == Len(p) < Len(o) /\ SubSeq(o, 1, Len(p)) = p
 AlgAmbiguous(cs, l, n) == \E k \in 0..(Len(l) - 1) : LET up == SubSeq(l, 1, k) IN
                             /\ ("--" \o n) \notin OptStrings(cs, up)
@@ -299,7 +377,7 @@ RECURSIVE AlgFillDefaults(_, _, _, _)
 AlgFillDefaults(cs, lvl, cfg, i) ==      \* get_defaults:1008-1015 / handle_subcommands:787-792 (explicit settings win)
   IF i > Len(Actions(cs, lvl)) THEN cfg
   ELSE LET a == Actions(cs, lvl)[i] IN
-       AlgFillDefaults(cs, lvl, IF a.req \/ CfgHas(cfg, lvl \o <<a.dest>>) THEN cfg ELSE Put(cfg, lvl \o <<a.dest>>, a.dflt), i + 1)
+       AlgFillDefaults(cs, lvl, IF a.dflt = NoVal \/ CfgHas(cfg, lvl \o <<a.dest>>) THEN cfg ELSE Put(cfg, lvl \o <<a.dest>>, a.dflt), i + 1)
 
 \* ActionConfigFile.apply_config -> _apply_actions, _core.py:1330-1379: every key of the file is looked up
 \* (sub-command sections recursively), the value checked against the action
@@ -316,6 +394,45 @@ AlgApplyCfgI(cs, lvl, m, acc, ks, i) ==
                        ELSE BadCfg                                                       \* NSKeyError at validation
        IN AlgApplyCfgI(cs, lvl, m, nxt, ks, i + 1)
 AlgApplyCfg(cs, lvl, m, cfg) == AlgApplyCfgI(cs, lvl, m, cfg, SetToSeq(DOMAIN m), 1)
+
+\* ArgumentParser._load_env_vars, _core.py:531-559 (level l): the config variable is applied first (:534-537), then a
+\* <..>SUBCOMMAND variable that names a choice selects it and the sub-parser's parse_env result (its defaults under its
+\* own environment, recursively) is stored below it (:538-546), then every other action's variable is checked against the
+\* action (:547-557; positionals have a variable too).  A failed check is a parse error.  parse_env (:561-602) = defaults
+\* under the environment; the handle_subcommands call inside it finds nothing that the SUBCOMMAND variable did not select
+\* (the instance keeps sections out of the config variable).
+Overlay(under, over) == [x \in (DOMAIN under) \cup (DOMAIN over) |-> IF x \in DOMAIN over THEN over[x] ELSE under[x]]
+\* :545-546  for k, v in vars(pcfg).items(): cfg[subcommand + "." + k] = v   -- every top-level key of the sub-parser's result
+\* REPLACES what the config variable put there (a nested section as a whole).  Since pcfg holds the sub-parser's DEFAULTS,
+\* settings of the selected sub-command that came from the config variable are lost: recorded deviation EnvConfigSectionLost.
+OverlayTop(under, over, base) ==
+  LET tops == {SubSeq(q, 1, Len(base) + 1) : q \in DOMAIN over}
+      kept == {q \in DOMAIN under : ~\E t \in tops : IsPrefixSeq(t, q)}
+  IN [x \in kept \cup (DOMAIN over) |-> IF x \in DOMAIN over THEN over[x] ELSE under[x]]
+\* (the sub-parser's result also holds None for every required argument that has no value: get_defaults stores action.default)
+RECURSIVE AlgReqNone(_, _, _, _)
+AlgReqNone(c, l, acc, i) == IF i > Len(Actions(c, l)) THEN acc
+                            ELSE LET a == Actions(c, l)[i] IN
+                                 AlgReqNone(c, l, IF a.dflt = NoVal /\ ~CfgHas(acc, l \o <<a.dest>>) THEN Put(acc, l \o <<a.dest>>, VNull) ELSE acc, i + 1)
+AlgEnvSel(c, l) == LET ix == EnvIdx(c, "esel", l) IN
+                   IF ix = {} THEN "" ELSE LET e == CsEnv(c)[CHOOSE i \in ix : TRUE] IN IF e.v.k = "str" /\ e.v.s \in LvlSubs(c, l) THEN e.v.s ELSE ""
+RECURSIVE AlgLoadEnv(_, _), AlgParseEnv(_, _), AlgEnvVars(_, _, _, _)
+AlgEnvVars(c, l, acc, i) ==
+  IF acc = BadCfg \/ i > Len(Actions(c, l)) THEN acc
+  ELSE LET a == Actions(c, l)[i]
+           ix == {j \in EnvIdx(c, "evar", l) : CsEnv(c)[j].n = a.dest}
+       IN IF ix = {} THEN AlgEnvVars(c, l, acc, i + 1)
+          ELSE LET val == Conv(a.t, CsEnv(c)[CHOOSE j \in ix : TRUE].v, "argv") IN
+               AlgEnvVars(c, l, IF val = Bad THEN BadCfg ELSE Put(acc, l \o <<a.dest>>, val), i + 1)
+AlgLoadEnv(c, l) ==
+  LET cx == EnvIdx(c, "ecfg", l)
+      c1 == IF cx = {} \/ ~AlgHasConfig(c, l) THEN EmptyFn
+            ELSE LET r == AlgApplyCfg(c, l, CsEnv(c)[CHOOSE i \in cx : TRUE].m, EmptyFn) IN IF r = BadCfg THEN BadCfg ELSE Put(r, l \o <<"config">>, VStr("<config>"))
+      sel == AlgEnvSel(c, l)
+      c2 == IF c1 = BadCfg \/ sel = "" THEN c1
+            ELSE LET sub == AlgParseEnv(c, l \o <<sel>>) IN IF sub = BadCfg THEN BadCfg ELSE OverlayTop(Put(c1, l \o <<"subcommand">>, VStr(sel)), AlgReqNone(c, l \o <<sel>>, sub, 1), l \o <<sel>>)
+  IN AlgEnvVars(c, l, c2, 1)
+AlgParseEnv(c, l) == LET e == AlgLoadEnv(c, l) IN IF e = BadCfg THEN BadCfg ELSE AlgFillDefaults(c, l, e, 1)
 
 (***************************************************************************)
 (* Alg layer: the state machine                                            *)
@@ -344,7 +461,8 @@ InitCase(c) == /\ cs = c /\ pc = "defaults" /\ toks = c.argv /\ lvl = << >> /\ n
 \* (the root parser classifies the whole command line first: an ambiguous option anywhere fails before anything is consumed)
 ADefaults == /\ pc = "defaults"
              /\ IF AmbiguousSubOptionIn(cs) THEN Fail("reject")
-                ELSE /\ cfg' = AlgFillDefaults(cs, << >>, cfg, 1)
+                ELSE IF CsEnvOn(cs) /\ AlgLoadEnv(cs, << >>) = BadCfg THEN Fail("reject")      \* _parse_defaults_and_environ:405-410
+                ELSE /\ cfg' = AlgFillDefaults(cs, << >>, IF CsEnvOn(cs) THEN AlgLoadEnv(cs, << >>) ELSE cfg, 1)      \* merge_config(cfg_env, defaults)
                      /\ pc' = "argv"
                      /\ UNCHANGED <<cs, toks, lvl, npos, calls, ret, meth, mcfg, out>>
 
@@ -403,9 +521,12 @@ ASubcommands ==
              ELSE IF sel = "config" /\ AlgHasConfig(cs, lvl) /\ CfgHas(cfg, lvl \o <<"config">>) THEN Fail("reject")  \* deviation "sub-named-config": cfg["config"] is the option's list of paths, not a section (:792); a parse error since 7c4a568 (before: "crash")
              ELSE LET others == {key \in DOMAIN cfg : \E s \in LvlSubs(cs, lvl) \ {sel} : IsPrefixSeq(lvl \o <<s>>, key) /\ Len(key) > Len(lvl)}
                       c1 == Put(DelKeys(cfg, others), lvl \o <<"subcommand">>, VStr(sel))
-                  IN /\ cfg' = AlgFillDefaults(cs, lvl \o <<sel>>, c1, 1)
-                     /\ lvl' = lvl \o <<sel>>
-                     /\ UNCHANGED <<cs, pc, toks, npos, calls, ret, meth, mcfg, out>>
+                  IN \* :795-804 subparser.parse_env() (env) / get_defaults(), merged UNDER the explicit settings
+                     \* (a sub-parser entered through its name on the command line did the same when it started, _core.py:454)
+                     IF CsEnvOn(cs) /\ AlgParseEnv(cs, lvl \o <<sel>>) = BadCfg THEN Fail("reject")
+                     ELSE /\ cfg' = (IF CsEnvOn(cs) THEN Overlay(AlgParseEnv(cs, lvl \o <<sel>>), c1) ELSE AlgFillDefaults(cs, lvl \o <<sel>>, c1, 1))
+                          /\ lvl' = lvl \o <<sel>>
+                          /\ UNCHANGED <<cs, pc, toks, npos, calls, ret, meth, mcfg, out>>
 
 \* validate -> check_required (_core.py:1097-1109) along the selected chain; lvl is the selected leaf level here
 RECURSIVE AlgRequiredOK(_, _, _, _)
@@ -425,8 +546,9 @@ AlgLocate(case, c, p) ==
   THEN AlgLocate(case, c, p \o <<c[p \o <<"subcommand">>].s>>) ELSE p
 ALocate == /\ pc = "locate"
            /\ lvl' = IF IsLeaf(cs, << >>) THEN << >> ELSE AlgLocate(cs, cfg, << >>)
+           /\ cfg' = [key \in DOMAIN cfg |-> Inst(cfg[key])]           \* auto_cli:99,115  init = parser.instantiate_classes(cfg)
            /\ pc' = "pop"
-           /\ UNCHANGED <<cs, toks, npos, cfg, calls, ret, meth, mcfg, out>>
+           /\ UNCHANGED <<cs, toks, npos, calls, ret, meth, mcfg, out>>
 
 \* the keyword arguments a level's namespace holds: its direct keys (a nested section counts as one key)
 LevelKw(c, l) == LET below == {q \in DOMAIN c : Len(q) > Len(l) /\ IsPrefixSeq(l, q)}
@@ -454,23 +576,27 @@ APop == /\ pc = "pop"
 AConstruct == /\ pc = "construct"
               /\ LET kw == LevelKw(cfg, lvl) ps == LvlParams(cs, lvl) IN
                    IF ~PyCallOK(ps, kw) THEN Fail("crash")
+                   ELSE IF Rz(LeafOf(cs, lvl)) # ""                    \* the constructor raises: nothing catches it, the method is never looked up
+                   THEN /\ calls' = Append(calls, Call(CallName(cs, lvl), PyBind(ps, kw)))
+                        /\ out' = "raise" /\ ret' = ExcTok(cs, lvl) /\ pc' = "done"
+                        /\ UNCHANGED <<cs, toks, lvl, npos, cfg, meth, mcfg>>
                    ELSE /\ calls' = Append(calls, Call(CallName(cs, lvl), PyBind(ps, kw)))
                         /\ lvl' = lvl \o <<meth>> /\ pc' = "call"       \* :211-212 component = getattr(obj, subcommand); cfg = subcommand_cfg
                         /\ UNCHANGED <<cs, toks, npos, cfg, ret, meth, mcfg, out>>
 
-\* :215 return component(**cfg)
+\* :213-215 return component(**cfg)   (asyncio.run(component(**cfg)) for a coroutine function: the same result)
 ACall == /\ pc = "call"
          /\ LET kw == IF meth # "" THEN mcfg ELSE LevelKw(cfg, lvl)
                 ps == LvlParams(cs, lvl) IN
               IF LvlKind(cs, lvl) \notin {"fn", "method"} \/ ~PyCallOK(ps, kw) THEN Fail("crash")
               ELSE /\ calls' = Append(calls, Call(CallName(cs, lvl), PyBind(ps, kw)))
-                   /\ ret' = "ret:" \o CallName(cs, lvl)
-                   /\ out' = "ok" /\ pc' = "done"
+                   /\ ret' = IF Rz(CallableOf(cs, lvl)) # "" THEN ExcTok(cs, lvl) ELSE RetTok(cs, lvl)
+                   /\ out' = (IF Rz(CallableOf(cs, lvl)) # "" THEN "raise" ELSE "ok") /\ pc' = "done"
                    /\ UNCHANGED <<cs, toks, lvl, npos, cfg, meth, mcfg>>
 
 Next == ADefaults \/ APositional \/ AOption \/ AConfig \/ AEndArgv \/ ASubcommands \/ AValidate \/ ALocate \/ APop \/ AConstruct \/ ACall
 
-AlgOutcome == Outcome(out, IF out = "ok" THEN calls ELSE << >>, IF out = "ok" THEN ret ELSE "")
+AlgOutcome == Outcome(out, IF out \in {"ok", "raise"} THEN calls ELSE << >>, IF out \in {"ok", "raise"} THEN ret ELSE "")
 
 (***************************************************************************)
 (* The recorded deviation (finding "private-optional-no-default"): a       *)
@@ -502,7 +628,12 @@ SubNamedConfigSelected == LET as == RefAsgs(cs) IN \E i \in 1..Len(as) : as[i].s
 UnionDefaultDigits == \E l \in AllLevels : \E i \in 1..Len(LvlParams(cs, l)) :
                          LET p == LvlParams(cs, l)[i] IN p.hd /\ p.t = "unionis" /\ p.d.k = "str" /\ p.d.s \in DOMAIN DigitStrs
 AmbiguousSubOption == AmbiguousSubOptionIn(cs)
-Deviation == HiddenButRequiredByPython \/ AmbiguousSubOption \/ MethodParameterNamedConfig \/ SubNamedConfigSelected \/ UnionDefaultDigits
+\* round 4, finding "env-config-section:lost-with-subcommand-variable": the config environment variable holds a section for a
+\* sub-command and the SUBCOMMAND environment variable selects that sub-command: _load_env_vars (:545-546) overwrites the
+\* section with the sub-parser's defaults (see OverlayTop); without the SUBCOMMAND variable the section's values arrive.
+EnvConfigSectionLost == CsEnvOn(cs) /\ \E i \in EnvIdx(cs, "ecfg", << >>) :
+                          LET m == CsEnv(cs)[i].m s == AlgEnvSel(cs, << >>) IN s # "" /\ s \in DOMAIN m /\ m[s].k = "map"
+Deviation == HiddenButRequiredByPython \/ AmbiguousSubOption \/ MethodParameterNamedConfig \/ SubNamedConfigSelected \/ UnionDefaultDigits \/ EnvConfigSectionLost
 
 (***************************************************************************)
 (* Invariants (checked by MC_Cli on every state of the bounded instance)   *)
@@ -511,13 +642,15 @@ Done == pc = "done"
 \* C12, design level: the algorithm produces an outcome the property allows (outside the recorded deviations)
 AlgRefinesRef == (Done /\ ~Deviation) => AlgOutcome \in RefOutcomes(cs)
 \* the clauses of the property, on the outcome
-OneCall == (Done /\ out = "ok") =>
+OneCall == (Done /\ out \in {"ok", "raise"}) =>
              \/ Len(calls) = 1 /\ LvlKind(cs, lvl) = "fn"
              \/ Len(calls) = 2 /\ LvlKind(cs, lvl) = "method" /\ calls[1].name = CallName(cs, FrontSeq(lvl))
-OwnParameters == (Done /\ out = "ok") =>
+             \/ out = "raise" /\ Len(calls) = 1 /\ LvlKind(cs, lvl) = "cls" /\ Rz(LeafOf(cs, lvl)) # ""     \* the constructor raised
+OwnParameters == (Done /\ out \in {"ok", "raise"}) =>
              /\ DOMAIN calls[Len(calls)].kw = ParamNames(LvlParams(cs, lvl))
              /\ Len(calls) = 2 => DOMAIN calls[1].kw = ParamNames(LvlParams(cs, FrontSeq(lvl)))
-ReturnPassedThrough == (Done /\ out = "ok") => ret = "ret:" \o calls[Len(calls)].name
+ReturnPassedThrough == /\ (Done /\ out = "ok") => (ret = RetTok(cs, lvl) /\ Rz(CallableOf(cs, lvl)) = "")
+                       /\ (Done /\ out = "raise") => (ret = "exc:" \o Rz(CallableOf(cs, lvl)) \o ":" \o calls[Len(calls)].name /\ Rz(CallableOf(cs, lvl)) # "")
 NeverCrashes == out = "crash" => (HiddenButRequiredByPython \/ MethodParameterNamedConfig \/ SubNamedConfigSelected)
 \* the clauses of the property, on the derived parser shape (every level of the component; once per case)
 ShapeLaws == pc = "defaults" => \A l \in {x \in AllLevels : LvlKind(cs, x) # "none"} : \A i \in 1..Len(LvlParams(cs, l)) :
